@@ -63,7 +63,7 @@ theorem delta_ok (r : RuleSp) (h : r.Ok) (hn : ∀ n, r = .N n → 0 ≤ n.val) 
       have h0 := hn n rfl
       obtain ⟨md, hmd⟩ := yday_ok (n.val + 1) (by omega) (by have := h.2; omega)
       have hne : (n.val + 1 == 0) = false := by apply beq_eq_false_iff_ne.mpr; omega
-      refine ⟨{ month := some md.1, day := some md.2, leapdays := (if n.val + 1 > 59 then -1 else 0),
+      refine ⟨{ month := some md.1, day := some md.2, leapdays := (if 59 < n.val + 1 ∧ n.val + 1 < 366 then -1 else 0),
                 seconds := t.getD 7200 - (if isend then d - s else 0) }, ?_, by simp [Delta.truthy]⟩
       simp [delta, RuleSp.attr, hne, hmd, bind, Except.bind, pure, Except.pure]
 
